@@ -193,5 +193,53 @@ U_HSeqs   == {<<>>, << <<OAcq>> >>, << <<OSync>>, <<OAcq, OCwr("w3", {"a"})>> >>
 U_CR      == [on |-> "b", p |-> <<OAcq, ORaise>>]
 U_UpProgs == {<<>>, <<OReg("d")>>, <<OAcq, OSync>>, <<ORaise>>}
 
+\* ---- listen_args catalogs.  NoLAs: listen_args never given.
+NoLAs(W) == [w \in W |-> {{}}]
+\* for a sink handling components x and y (z: another component, "*": the None
+\* key): an option given for one of them only (both ways round: the order in
+\* which core wires the components is not defined), for both, for all, for all
+\* with one component overriding part of it, explicitly the defaults
+LAPair(x, y) ==
+  {{}, {LA(x, "hi", "-")}, {LA(y, "hi", "-")}, {LA(x, "lo", "-")}, {LA(y, "lo", "n")},
+   {LA(x, "-", "y")}, {LA(y, "-", "y")}, {LA(x, "hi", "y"), LA(y, "lo", "n")},
+   {LA("*", "hi", "y")}, {LA("*", "lo", "-"), LA(y, "hi", "-")},
+   {LA("*", "-", "y"), LA(x, "-", "n")}, {LA("*", "hi", "-"), LA(y, "-", "y")},
+   {LA(x, "mid", "n"), LA(y, "mid", "y")}}
+
+\* ---- O: listener options: a sink handling two event-raising components, one
+\*         handling one of them; a callback that registers (the sinks' rendezvous
+\*         then happens inside a callback); the caller dropping its sinks
+O_Comps   == {"a", "b"}
+O_Sources == {"a", "b"}
+O_Waiters == {"w1", "s1", "s2"}
+O_Kind    == [w \in O_Waiters |-> IF w = "w1" THEN "cb" ELSE "sink"]
+O_Script  == [w \in O_Waiters |-> IF w = "w1" THEN SReg("b") ELSE SNone]
+O_Handles == [w \in O_Waiters |-> CASE w = "s1" -> {"a", "b"} [] w = "s2" -> {"b"} [] OTHER -> {}]
+O_DepSets == {{}}
+O_LAs     == [w \in O_Waiters |->
+                CASE w = "s1" -> LAPair("a", "b")
+                  [] w = "s2" -> {{}, {LA("b", "hi", "y")}, {LA("*", "lo", "-"), LA("a", "hi", "y")}}
+                  [] OTHER -> {{}}]
+O_HSeqs   == {}
+O_CR      == NoCR
+O_UpProgs == {}
+
+T_LAs == [w \in T_Waiters |->
+            CASE w = "s1" -> LAPair("a", "b") \cup {{LA("c", "hi", "y")}, {LA("e", "lo", "y"), LA("a", "lo", "-")}}
+              [] w = "s2" -> {{}, {LA("c", "lo", "y")}, {LA("*", "hi", "-"), LA("a", "lo", "y")}, {LA("d", "hi", "y")}}
+              [] OTHER -> {{}}]
+U_LAs == [w \in U_Waiters |-> IF w = "s1" THEN LAPair("b", "d") \cup {{LA("a", "hi", "y")}} ELSE {{}}]
+
+NoLA_A == NoLAs(A_Waiters)
+NoLA_B == NoLAs(B_Waiters)
+NoLA_C == NoLAs(C_Waiters)
+NoLA_I == NoLAs(I_Waiters)
+NoLA_J == NoLAs(J_Waiters)
+NoLA_L == NoLAs(L_Waiters)
+NoLA_R == NoLAs(R_Waiters)
+NoLA_QA == NoLAs(QA_Waiters)
+NoLA_QB == NoLAs(QB_Waiters)
+NoLA_RQ == NoLAs(RQ_Waiters)
+
 ASSUME PrintT(<<"CAT", ToJson(Catalog)>>)
 ====
